@@ -13,7 +13,9 @@ Record fjoin := { fj_call : fjcall; fj_ambiguous : bool; fj_lag_ms : Z; fj_impl 
 Record ftask := { ft_out : uout; ft_joins : list fjoin }.
 Record acase := { ac_now : Z; ac_dur : Z; ac_hs : list ahandle; ac_flags : list aflag;
                   ac_ambiguous : bool; ac_impl : ares }.
-Inductive fcase := FJoins (ts : list ftask) | FAny (a : acase).
+(** [chk]: named checks the runner computes from the same observations (e.g. "the sleeps of the N
+    tasks overlapped", "the cancelled task's body did not run") *)
+Inductive fcase := FJoins (ts : list ftask) (chk : list (string * bool)) | FAny (a : acase).
 
 (** the address is not observable; the theorems hold for every address the ABI can carry *)
 Definition model_ptr : Z := 4096.
@@ -40,9 +42,9 @@ Definition ft_prop (t : ftask) : bool :=
 Definition has_join (f : ftask -> fjoin -> bool) (ts : list ftask) : bool :=
   existsb (fun t => existsb (f t) (ft_joins t)) ts.
 
-Definition judge_fjoins (ts : list ftask) : verdict :=
+Definition judge_fjoins (ts : list ftask) (chk : list (string * bool)) : verdict :=
   {| v_corr := forallb (fun t => ft_corr (ft_out t) fs0 (ft_joins t)) ts;
-     v_prop := forallb ft_prop ts;
+     v_prop := forallb ft_prop ts && forallb snd chk;
      v_tags := (["facade"]
        ++ (if existsb (fun t => match ft_out t with URet _ => true | _ => false end) ts then ["facade_value"] else [])
        ++ (if existsb (fun t => match ft_out t with UPanic (PayStatic _) => true | _ => false end) ts then ["facade_panic_static"] else [])
@@ -55,8 +57,9 @@ Definition judge_fjoins (ts : list ftask) : verdict :=
        ++ (if has_join (fun _ j => is_outcome (fj_impl j)
                                    && match fc_call (fj_call j) with FCTimeout d => (U64MAX <? d)%Z | FCJoin => false end) ts
            then ["facade_oversized_duration_outcome"] else [])
-       ++ (if has_join (fun _ j => fj_ambiguous j) ts then ["facade_ambiguous_timing"] else []))%list;
-     v_note := "" |}.
+       ++ (if has_join (fun _ j => fj_ambiguous j) ts then ["facade_ambiguous_timing"] else [])
+       ++ map fst chk)%list;
+     v_note := join "," (map (fun c => "failed-check:" ++ fst c) (filter (fun c => negb (snd c)) chk)) |}.
 
 Definition any_defect : string := "any_join_drops_panicked_task".
 
@@ -78,7 +81,7 @@ Definition judge_fany (a : acase) : verdict :=
      v_note := "" |}.
 
 Definition judge_facade (c : fcase) : verdict :=
-  match c with FJoins ts => judge_fjoins ts | FAny a => judge_fany a end.
+  match c with FJoins ts chk => judge_fjoins ts chk | FAny a => judge_fany a end.
 
 (** every kind of C02 case *)
 Definition allcase : Type := ((pcase + jcase) + fcase)%type.
